@@ -50,6 +50,8 @@ def units(tier):
 
 
 def cases(unit):
+    if unit.get('fam') == 'json' and unit.get('comp') is None:
+        yield {'fam': 'long', 'enc': unit['enc']}
     if unit.get('fam') == 'json':
         for i in range(len(JSON_OBJS)):
             yield {'fam': 'json', 'enc': unit['enc'], 'comp': unit['comp'], 'objs': i}
@@ -125,7 +127,27 @@ def run_json(case, acc):
     return []
 
 
+def run_long(case, acc):
+    enc = case['enc']
+    unit_s = 'a\u00e9' if enc == 'latin-1' else 'a\u00e9\u20ac\U0001F600'
+    strings = [unit_s * 9000, '', unit_s * 7]
+    text = ''.join(strings)
+    data = b''.join(run([rs.data.encode(enc)], strings).items)
+    acc.evals += 1
+    for step in (65536, 65537, 4095, 8192, 100001):
+        chunks = [data[i:i + step] for i in range(0, len(data), step)]
+        s = run([rs.data.decode(enc)], chunks)
+        acc.evals += 1
+        acc.traces += 1
+        if s.error is not None or ''.join(s.items) != text:
+            return [viol(enc, 'long-text-differs', {'chunk_size': step, 'error': repr(s.error), 'decoded_length': len(''.join(s.items)), 'expected_length': len(text)})]
+    acc.nontrivial.add(fast_hash(('long', enc)))
+    return []
+
+
 def run_case(case, acc):
+    if case.get('fam') == 'long':
+        return run_long(case, acc)
     if case.get('fam') == 'json':
         return run_json(case, acc)
     enc = case['enc']
